@@ -2,6 +2,8 @@
 C strings, result ranges and case splits, argv[0]-needs-argc>0, dispatcher dataflow rules."""
 from common import *
 from c19_ext import *
+from c01 import trace_const
+from irlib import tyname
 
 
 def run(rep, repo, tier):
@@ -10,6 +12,7 @@ def run(rep, repo, tier):
     run_replsub(rep, repo)
     run_argvc(rep, repo)
     run_shells(rep, repo)
+    run_path(rep, repo)
 
 
 def run_memmem(rep, repo):
@@ -151,7 +154,7 @@ def run_shells(rep, repo):
             'mshell_tables_execute': FnSpec(setup=cstr_args(0))}),
             ('igris/shell/rshell.c', {
                 'rshell_execute': FnSpec(setup=cstr_args(0), pre=['arg3 >= 0', 'arg3 <= 10']),
-                'rshell_tables_execute': FnSpec(setup=cstr_args(0)),
+                'rshell_tables_execute': FnSpec(setup=chain(cstr_args(0), const_table_args(1))),
                 'rshell_execute_v': FnSpec(setup=sized_params((1, 0), elem=8),
                                            pre=['arg0 >= 1', 'arg0 <= 1048576', 'arg4 >= 0', 'arg4 <= 10'])})):
         mod = compile_ir(repo + '/' + rel, repo)
@@ -162,3 +165,190 @@ def run_shells(rep, repo):
         for fname, spec in fns.items():
             run.run(fname, spec)
         rep.add_absint('R-SHELL', summarize(it, run))
+        if mon.handler_calls == 0:
+            raise AnalysisBroken('%s: no handler call was interpreted' % rel)
+        for fname in fns:
+            if fname != 'rshell_execute':
+                dispatch_rule(rep, mod, fname)
+
+
+def dispatch_rule(rep, mod, fname, rule='R-DISPATCH'):
+    """IR dataflow: the only indirect call of a dispatcher is  it->func  of the table entry whose  it->name
+    compared equal (strcmp == 0) to argv[0]; a match always reaches the call; a mismatch moves on to the
+    next entry; the walk ends at the entry with func == NULL; after the handler ran the result is SSHELL_OK"""
+    f = mod.fn(fname)
+    if f is None or f.decl:
+        raise AnalysisBroken('dispatcher %s not found' % fname)
+    where = '%s:%d' % (f.file, f.line)
+    ind = [i for i in f.all_insts() if i.op in ('call', 'invoke') and i.callee is None
+           and i.d.get('callee', {}).get('k') in ('inst', 'arg')]
+    if len(ind) != 1:
+        raise AnalysisBroken('%s: expected exactly one indirect (handler) call, found %d' % (fname, len(ind)))
+    H = ind[0]
+
+    def field_load(v):
+        """v = load (phi + const)  ->  (phi inst, struct name, byte offset) or None"""
+        li = f.inst_of(v)
+        if li is None or li.op != 'load':
+            return None
+        root, off = trace_const(f, li.ops[0])
+        ri = f.inst_of(root)
+        if ri is None or ri.op != 'phi':
+            return None
+        return ri, off
+    hl = field_load(H.callee_v)
+    if hl is None:
+        rep.inst(rule, fname, 'handler-is-func-of-a-table-entry', False, H.where(),
+                 'the indirect call does not go through a field of the table cursor')
+        return
+    it, foff = hl
+    sname = tyname(it.ty.get('s', '')) if it.ty.get('k') == 'ptr' else ''
+    off_func, off_name = mod.field_off(sname, 'func'), mod.field_off(sname, 'name')
+    if off_func is None or off_name is None:
+        raise AnalysisBroken('%s: table entry type %r has no fields name/func (anchor changed)' % (fname, sname))
+    rep.inst(rule, fname, 'handler-is-func-of-a-table-entry', foff == off_func, H.where(),
+             None if foff == off_func else 'handler pointer is loaded from offset %d of the entry, func is at %d'
+             % (foff, off_func))
+    # the guarding comparison
+    guard = None
+    for S in f.calls('strcmp'):
+        names = [field_load(a) for a in S.ops]
+        which = [k for k, n in enumerate(names) if n is not None and n[0] is it and n[1] == off_name]
+        if len(which) != 1:
+            continue
+        other = S.ops[1 - which[0]]
+        oi = f.inst_of(other)
+        argv0 = False
+        if oi is not None and oi.op == 'load':
+            root, off = trace_const(f, oi.ops[0])
+            ri = f.inst_of(root)
+            argv0 = off == 0 and (root.k == 'arg' or (ri is not None and ri.op == 'alloca'))
+        for u in f.users(S):
+            if u.op == 'icmp' and u.pred in ('eq', 'ne') and any(o.k == 'ci' and o.ival == 0 for o in u.ops):
+                for b in f.users(u):
+                    if b.op == 'br' and 'f' in b.d:
+                        zero = b.d['t'] if u.pred == 'eq' else b.d['f']
+                        nonzero = b.d['f'] if u.pred == 'eq' else b.d['t']
+                        guard = (S, b, f.bmap[zero], f.bmap[nonzero], argv0)
+    if guard is None:
+        rep.inst(rule, fname, 'handler-guarded-by-name-match', False, H.where(),
+                 'no branch on strcmp(argv[0], it->name) == 0 for the entry whose func is called')
+        return
+    S, br, zb, nzb, argv0 = guard
+    rep.inst(rule, fname, 'compares-first-token-with-entry-name', argv0, S.where(),
+             None if argv0 else 'the string compared with it->name is not argv[0]')
+    ok = zb.preds == [br.block] and f.dominates_block(zb, H.block) and zb is not nzb
+    rep.inst(rule, fname, 'handler-guarded-by-name-match', ok, H.where(),
+             None if ok else 'the handler call is not dominated by the strcmp(...) == 0 edge')
+    ok = zb is H.block or f.postdominates_block(H.block, zb)
+    rep.inst(rule, fname, 'match-always-dispatches', ok, br.where(),
+             None if ok else 'a path from the strcmp(...) == 0 edge leaves the function without calling the handler')
+    # mismatch -> next entry
+    esize = it.ty.get('elemsize')
+    step = None
+    L = [l for l in f.loops if l['header'] is it.block]
+    if not L:
+        raise AnalysisBroken('%s: the table cursor is not a loop variable' % fname)
+    L = L[0]
+    for (bb, v) in it.incoming:
+        if f.bmap[bb] in L['blocks']:
+            root, off = trace_const(f, v)
+            step = off if (root.k == 'inst' and root.id == it.id) else None
+    ok = step is not None and step == esize and nzb in L['blocks'] and H.block not in f.reachable_blocks(nzb, avoid=[it.block])
+    rep.inst(rule, fname, 'mismatch-advances-to-next-entry', ok, br.where(),
+             None if ok else 'after a mismatch the cursor advances by %r bytes (entry size %r) or the handler is '
+             'reachable without a new comparison' % (step, esize))
+    # sentinel
+    t = it.block.term
+    ok = False
+    if t.op == 'br' and 'f' in t.d and t.ops[0].k == 'inst':
+        c = f.insts[t.ops[0].id]
+        if c.op == 'icmp' and c.pred in ('eq', 'ne') and any(o.k == 'null' for o in c.ops):
+            o = [x for x in c.ops if x.k != 'null']
+            fl = field_load(o[0]) if o else None
+            stay = t.d['t'] if c.pred == 'ne' else t.d['f']
+            ok = fl is not None and fl[0] is it and fl[1] == off_func and f.bmap[stay] in L['blocks']
+    rep.inst(rule, fname, 'walk-ends-at-null-func-sentinel', ok, t.where(),
+             None if ok else 'the table walk is not bounded by the entry whose func is NULL')
+    # result after the handler
+    rets = f.returns()
+    ok = bool(rets)
+    for r in rets:
+        if not r.ops:
+            continue
+        v = r.ops[0]
+        ri = f.inst_of(v)
+        if ri is not None and ri.op == 'phi':
+            for (bb, x) in ri.incoming:
+                if f.dominates_block(H.block, f.bmap[bb]) and not (x.k == 'ci' and x.ival == 0):
+                    ok = False
+        elif f.dominates_block(H.block, r.block) and not (v.k == 'ci' and v.ival == 0):
+            ok = False
+    rep.inst(rule, fname, 'returns-SSHELL_OK-after-handler', ok, where,
+             None if ok else 'a path through the handler call does not return SSHELL_OK (0)')
+
+
+def out_store_hook(run, idx, name, signed=False):
+    """remember the value stored through out-parameter idx as ghost_<name> (integer) or ghost_<name>_off
+    (pointer into the buffer / string under analysis)"""
+    def hook(interp, st, inst, p, v):
+        if not isinstance(p, PtrVal) or p.obj != run.argobj.get(idx):
+            return
+        if isinstance(v, IntVal):
+            st.ghost[name] = st.force_s(v) if signed else st.force_u(v)
+        elif isinstance(v, PtrVal) and not v.is_null:
+            st.ghost[name + '_off'] = v.off
+            st.ghost[name + '_in_buf'] = 1 if v.obj in (run.bufobj, run.argobj.get(0)) else 0
+    return hook
+
+
+def run_path(rep, repo):
+    mod = witness('w_c19_path.cpp', repo)
+    rep.units.append('witness/w_c19_path.cpp -> igris/util/pathops.h, igris/creader.h')
+    it = Interp(mod, externals=LIBC_EXT)
+    run = Run19(it, [])
+    F = lambda n: fn_named(mod, n)
+    inside = ['ret_null == 0', 'ret_in_arg0 == 1', 'ret_off >= 0', 'ret_off <= len_arg0']
+    run.run(F('path_is_single_dot'), FnSpec(setup=cstr_args(0, inside=(0,)), post=[
+        dict(name='boolean', then=['ret >= 0', 'ret <= 1']),
+        dict(name='end-of-string-is-no-dot', when=['pos_arg0 == len_arg0'], then=['ret == 0'])]))
+    run.run(F('path_is_double_dot'), FnSpec(setup=cstr_args(0, inside=(0,)), post=[
+        dict(name='boolean', then=['ret >= 0', 'ret <= 1']),
+        dict(name='needs-two-characters', when=['pos_arg0 + 1 >= len_arg0'], then=['ret == 0'])]))
+    run.run(F('path_is_abs'), FnSpec(setup=cstr_args(0), post=[
+        dict(name='empty-is-relative', when=['len_arg0 == 0'], then=['ret == 0'])]))
+    run.run(F('path_is_simple'), FnSpec(setup=cstr_args(0), post=[
+        dict(name='empty-is-simple', when=['len_arg0 == 0'], then=['ret == 1'])]))
+    run.run(F('path_skip_slashes_and_single_dots'), FnSpec(setup=cstr_args(0, inside=(0,)), post=[
+        dict(name='result-inside-path', then=inside + ['ret_off >= pos_arg0'])]))
+    it.store_hook = out_store_hook(run, 1, 'plen')
+    run.run(F('path_next'), FnSpec(setup=chain(cstr_args(0), fixed_args((1, 4))), post=[
+        dict(name='empty-path-has-no-element', when=['len_arg0 == 0'], then=['ret_null == 1']),
+        dict(name='element-inside-path', when=['ret_null == 0'],
+             then=['ret_in_arg0 == 1', 'ret_off >= 0', 'ret_off + 1 <= len_arg0']),
+        dict(name='element-length-inside-path', when=['ret_null == 0'],
+             then=['ghost_plen >= 1', 'ret_off + ghost_plen <= len_arg0'])]))
+    it.store_hook = None
+    run.run(F('path_next'), FnSpec(setup=chain(cstr_args(0), null_args(1)), post=[
+        dict(name='without-length-out-parameter', when=['ret_null == 0'],
+             then=['ret_in_arg0 == 1', 'ret_off + 1 <= len_arg0'])]))
+    run.run(F('path_next'), FnSpec(setup=chain(null_args(0), fixed_args((1, 4))), post=[
+        dict(name='null-path-has-no-element', then=['ret_null == 1'])]))
+    run.run(F('path_iterate'), FnSpec(setup=cstr_args(0), post=[
+        dict(name='empty-path-ends-iteration', when=['len_arg0 == 0'], then=['ret_null == 1']),
+        dict(name='result-inside-path', when=['len_arg0 >= 1'], then=inside),
+        dict(name='iteration-makes-progress', when=['len_arg0 >= 1'], then=['ret_off >= 1'])]))
+    run.run(F('path_iterate'), FnSpec(setup=null_args(0), post=[
+        dict(name='null-path-ends-iteration', then=['ret_null == 1'])]))
+    run.run(F('path_last_node'), FnSpec(setup=cstr_args(0), post=[
+        dict(name='result-inside-path', then=inside)]))
+    run.run(F('path_compare_node'), FnSpec(setup=cstr_args(0, 1, inside=(0, 1)), post=[
+        dict(name='three-way-result', then=['ret >= -1', 'ret <= 1']),
+        dict(name='two-empty-nodes-are-equal', when=['pos_arg0 == len_arg0', 'pos_arg1 == len_arg1'], then=['ret == 0']),
+        dict(name='empty-node-sorts-first', when=['pos_arg0 == len_arg0'], then=['ret <= 0']),
+        dict(name='empty-node-sorts-first-b', when=['pos_arg1 == len_arg1'], then=['ret >= 0'])]))
+    run.run(F('path_remove_prefix'), FnSpec(setup=cstr_args(0, 1), post=[
+        dict(name='result-inside-path', then=inside),
+        dict(name='empty-prefix-removes-nothing-from-relative-path', when=['len_arg1 == 0', 'len_arg0 == 0'],
+             then=['ret_off == 0'])]))
+    rep.add_absint('R-PATH', summarize(it, run))
